@@ -214,6 +214,13 @@ func (w *World) InjectOpen(frame []byte) (accepted int) {
 	return
 }
 
+// Pending is the number of accepted frames that sx has not read yet.
+func (s *Socket) Pending() int {
+	s.mu.Lock()
+	defer s.mu.Unlock()
+	return len(s.queue)
+}
+
 func (s *Socket) IsClosed() bool {
 	s.mu.Lock()
 	defer s.mu.Unlock()
